@@ -175,8 +175,10 @@ PROPS = {
         "explanation": "validate_closed + apply_resolves over any prior registry state.",
     },
     "C16": {
-        "families": {"reconf": {"quick": 40, "thorough": 600, "search": 150, "components": ["mismatch", "monitor"]}},
-        "signature": lambda rec: "reconf:" + json_short((rec.get("case") or {}).get("configs"))[:180],
+        "families": {"reconf": {"quick": 40, "thorough": 600, "search": 150, "components": ["mismatch", "monitor"]},
+                     # requests in flight while each registry is re-applied keep being served correctly
+                     "reload": {"quick": 45, "thorough": 900, "search": 225, "no_cases": True}},
+        "signature": lambda rec: (sig_c20(rec) if rec.get("family") == "reload" else "reconf:" + json_short((rec.get("case") or {}).get("configs"))[:180]),
         "trusted_base": CONFIG_TRUST,
         "assumptions": ["listening sockets, graceful close timing and in-flight client traffic during an update are runtime behaviour (partial): the model covers what every request resolves at each intermediate step",
                         "size / hit-for-pass / store of a surviving cache, log format and the admin server are the documented restart-only settings"],
